@@ -42,3 +42,35 @@ Print Assumptions C17_model_formulas_are_the_source.
 
 Theorem C17_nonvacuous : demo_statement.
 Proof. exact demo_heal. Qed.
+
+(* ------------------------------------------------------------------------------------------ *)
+(* "after any adjustment heal listeners make": the heal listeners of content are MODIFIER callbacks,
+   reached through the modifier manager's dispatch (pkg/engine/modifier/listener.go).  Model/Dispatch.v
+   models that dispatch as the code is; Model/DispatchSpec.v is the role table of the doc comments of
+   modifier.Listeners.  The definitions are spelled out in Proofs/DispatchProofs.v. *)
+From SR Require Model.Dispatch Model.DispatchSpec Proofs.DispatchProofs.
+
+(* heal dispatch: OnBeforeDealHeal / OnAfterDealHeal on the HEALER's instances, then
+   OnBeforeBeingHeal / OnAfterBeingHeal on the RECEIVER's, each in attachment order, in snapshot state
+   only on instances that may modify snapshots; the heal value read back is the fold of the
+   callbacks' adjustments in that order *)
+Theorem C17_heal_dispatch : DispatchProofs.heal_dispatch_statement.
+Proof. exact DispatchProofs.heal_dispatch_holds. Qed.
+Print Assumptions C17_heal_dispatch.
+
+(* the role table for every event and every callback: exactly once per (role occurrence, eligible
+   attached instance), on no other instance, in attachment / role order *)
+Theorem C17_listener_role_table : DispatchProofs.role_table_statement.
+Proof. exact DispatchProofs.role_table_holds. Qed.
+Print Assumptions C17_listener_role_table.
+
+(* every world, also when callbacks detach / attach modifiers during the dispatch; the LimboWaitHeal
+   verdict is the disjunction of the answers *)
+Theorem C17_dispatch_any_world : DispatchProofs.any_world_statement.
+Proof. exact DispatchProofs.any_world_holds. Qed.
+Print Assumptions C17_dispatch_any_world.
+
+Example C17_dispatch_nonvacuous : DispatchProofs.demo_heal_statement.
+Proof. exact DispatchProofs.demo_heal. Qed.
+Example C17_dispatch_scripted_nonvacuous : DispatchProofs.demo_scripted_statement.
+Proof. exact DispatchProofs.demo_scripted. Qed.
